@@ -13,7 +13,11 @@ domain layouts: checks/sched_common.py profile `topo`), replayed by harness/driv
 Provisioner.Schedule.  Topology_Trace.tla evaluates G_C02_Affinity / G_C02_Spread at every H1 commit
 (admission time, against the spec's own counts) and G_C02_Anti / G_C02_AntiInverse on the final
 Results; a second pass (Mode "end") judges the same traces with the order-free end-state forms only
-(Inv_C02_EndState: what the check can say without hook H1)."""
+(Inv_C02_EndState: what the check can say without hook H1).
+
+Quick tier: two themed 3-pod scopes of the closed model chosen by the seed (seeds 0..3 cover all eight) + a small 2-pod scope, the
+unguarded forms check, coverage and all Weak configs run as background TLC jobs while the scenarios are enumerated, replayed and
+validated (both validation passes side by side); the wide scopes belong to the thorough tier."""
 import concurrent.futures as cf
 import itertools
 import json
